@@ -12,7 +12,8 @@ from vf.runner import Relation
 LEVEL = 'exploration'
 RULE = ('Hypothesis draws circle / ellipse / rectangle / the three annuli as '
         'sky regions with sizes of 1-50 px, any angle, in a frame equal to or '
-        'different from the WCS frame (ICRS, FK5, Galactic), and a conformal '
+        'different from the WCS frame (ICRS, FK5, FK5 with equinox J1975, '
+        'Galactic), and a conformal '
         'WCS (TAN/SIN, any rotation, 1e-5..1e-2 deg/px, standard parity, '
         '|lat| < 85 deg), centre within 300 px of CRPIX. Absolute oracle (no '
         'round trip): the pixel centre is wcs.world_to_pixel(centre); the sky '
@@ -44,7 +45,8 @@ def strategy():
     return st.fixed_dictionaries({
         'cls': st.sampled_from(CLASSES + ['EllipseSkyRegion',
                                           'RectangleSkyRegion']),
-        'frame': st.sampled_from(['same', 'same', 'icrs', 'fk5', 'galactic']),
+        'frame': st.sampled_from(['same', 'same', 'icrs', 'fk5', 'galactic',
+                                  'fk5_j1975']),
         'w_px': px, 'h_px': px,
         'f1': st.floats(0.1, 0.9), 'f2': st.floats(0.1, 0.9),
         'unit': st.sampled_from(['arcsec', 'arcmin', 'deg', 'rad']),
@@ -52,7 +54,8 @@ def strategy():
         'off': st.tuples(off, off),
         'pas': st.lists(st.floats(0, 360), min_size=2, max_size=4),
         'wcs': W.wcs_specs(projs=('TAN', 'SIN'), frames=('icrs', 'fk5',
-                                                         'galactic'),
+                                                         'galactic',
+                                                         'fk5_j1975'),
                            scale=(1e-5, 1e-2), parities=(-1,), past=False),
         # the WCS OBJECT has a past: it is first used in another state
         # (rotation, scale, reference point) and then edited in place
